@@ -44,3 +44,129 @@ def h_header_readback(matchtype, disabled):
     prove(got[0][1] == matchtype, "RB.match-type-with-negation-read-back")
     prove(got[0][0] == n and got[0][2] == v, "RB.condition-name-and-value-read-back-unchanged")
     prove(fs.get_filter_matchtype("rule") == "anyof", "RB.filter-match-type")
+
+
+def h_exists_readback(k, negated, disabled):
+    """("exists" | "notexists", name1 .. namek) comes back with the same names"""
+    names = []
+    for i in range(k):
+        n = sym_str("name%d" % i)
+        assume(in_re(n, re_plain()))
+        names.append(n)
+    fs = factory.FiltersSet("t")
+    kind = "notexists" if negated else "exists"
+    fs.addfilter("rule", [tuple([kind] + names)], [("keep",)])
+    if disabled:
+        fs.disablefilter("rule")
+    got = fs.get_filter_conditions("rule")
+    prove(len(got) == 1 and len(got[0]) == 1 + k and got[0][0] == kind, "RB.condition-shape")
+    if len(got) == 1 and len(got[0]) == 1 + k:
+        for i in range(k):
+            prove(got[0][1 + i] == names[i], "RB.names-read-back-unchanged-in-order")
+
+
+CONDITION_KINDS = ["size", "envelope", "envelope-list", "envelope-not", "body", "body-not", "currentdate", "currentdate-not",
+                   "currentdate-value", "two-conditions-allof", "header+exists-anyof"]
+
+
+def _norm(t):
+    return tuple(tuple(x) if isinstance(x, list) else x for x in t)
+
+
+def h_condition_readback(kind, disabled):
+    """one filter built from a condition of the given kind with SYMBOLIC values (no comma, quote, backslash): the
+    conditions read back are the ones supplied, negation included; the match type is the one supplied"""
+    v = sym_str("value")
+    w = sym_str("other_value")
+    assume(in_re(v, re_plain()))
+    assume(in_re(w, re_plain()))
+    mt = "anyof"
+    if kind == "size":
+        conds = [("size", ":over", "100K")]
+    elif kind == "envelope":
+        conds = [("envelope", ":is", ["from"], [v])]
+    elif kind == "envelope-list":
+        conds = [("envelope", ":contains", ["from", "to"], [v, w])]
+    elif kind == "envelope-not":
+        conds = [("envelope", ":notis", ["to"], [v])]
+    elif kind == "body":
+        conds = [("body", ":raw", ":contains", v)]
+    elif kind == "body-not":
+        conds = [("body", ":text", ":notcontains", v, w)]
+    elif kind == "currentdate":
+        conds = [("currentdate", ":zone", "+0100", ":is", "date", v)]
+    elif kind == "currentdate-not":
+        conds = [("currentdate", ":zone", "+0100", ":notis", "date", v)]
+    elif kind == "currentdate-value":
+        conds = [("currentdate", ":zone", "+0100", ":value", "gt", "date", v)]
+    elif kind == "two-conditions-allof":
+        conds = [("Subject", ":notcontains", v), ("exists", w)]
+        mt = "allof"
+    else:
+        conds = [("notexists", v, w), ("From", ":is", w)]
+    fs = factory.FiltersSet("t")
+    fs.addfilter("rule", conds, [("keep",)], mt)
+    if disabled:
+        fs.disablefilter("rule")
+    got = fs.get_filter_conditions("rule")
+    prove(len(got) == len(conds), "RB.number-of-conditions")
+    if len(got) == len(conds):
+        for i in range(len(conds)):
+            prove(_norm(got[i]) == _norm(conds[i]), "RB.condition-read-back-as-supplied")
+    prove(fs.get_filter_matchtype("rule") == mt, "RB.filter-match-type")
+
+
+def h_updated_readback(disabled):
+    """updatefilter replaces conditions, actions AND match type: what is read back afterwards is what was given last"""
+    v = sym_str("value")
+    w = sym_str("other_value")
+    assume(in_re(v, re_plain()))
+    assume(in_re(w, re_plain()))
+    fs = factory.FiltersSet("t")
+    fs.addfilter("rule", [("Subject", ":is", "old")], [("discard",)], "anyof")
+    if disabled:
+        fs.disablefilter("rule")
+    conds = [("Subject", ":notmatches", v), ("exists", w, "X-Other")]
+    fs.updatefilter("rule", "rule", conds, [("fileinto", w)], "allof")
+    got = fs.get_filter_conditions("rule")
+    prove(len(got) == 2, "RB.number-of-conditions")
+    if len(got) == 2:
+        prove(_norm(got[0]) == _norm(conds[0]) and _norm(got[1]) == _norm(conds[1]), "RB.condition-read-back-as-supplied")
+    prove(fs.get_filter_matchtype("rule") == "allof", "RB.filter-match-type")
+    acts = fs.get_filter_actions("rule")
+    prove(len(acts) == 1 and _norm(acts[0]) == ("fileinto", w), "RB.action-read-back-as-supplied")
+    prove(fs.is_filter_disabled("rule") == disabled, "RB.update-keeps-the-enabled-status")
+
+
+# the claim covers actions with positional strings and value-less tags (tags with a parameter are outside it)
+ACTION_KINDS = ["fileinto-copy", "fileinto-create", "fileinto-copy-create", "redirect-copy", "two-actions", "stop", "discard"]
+
+
+def h_action_forms_readback(kind, disabled):
+    v = sym_str("value")
+    w = sym_str("other_value")
+    assume(in_re(v, re_plain()))
+    assume(in_re(w, re_plain()))
+    if kind == "fileinto-copy":
+        acts = [("fileinto", ":copy", v)]
+    elif kind == "fileinto-create":
+        acts = [("fileinto", ":create", v)]
+    elif kind == "fileinto-copy-create":
+        acts = [("fileinto", ":copy", ":create", v)]
+    elif kind == "redirect-copy":
+        acts = [("redirect", ":copy", v)]
+    elif kind == "two-actions":
+        acts = [("fileinto", v), ("redirect", w)]
+    elif kind == "stop":
+        acts = [("stop",)]
+    else:
+        acts = [("discard",)]
+    fs = factory.FiltersSet("t")
+    fs.addfilter("rule", [("Subject", ":is", "x")], acts)
+    if disabled:
+        fs.disablefilter("rule")
+    got = fs.get_filter_actions("rule")
+    prove(len(got) == len(acts), "RB.number-of-actions")
+    if len(got) == len(acts):
+        for i in range(len(acts)):
+            prove(_norm(got[i]) == _norm(acts[i]), "RB.action-read-back-as-supplied")
